@@ -115,6 +115,7 @@ const PROFILES: &[Profile] = &[
     prof("reserve", "map", "reserve"),
     prof("iter", "map", "iter"),
     prof("xback", "map", "xback"),
+    prof("xback-table", "table", "xback-table"),
     prof("clone", "map", "clone"),
     // inconsistent Hash / Eq (C05): answers are pseudo-random functions of the call number
     prof("broken-hash", "map", "mixed"),
@@ -219,7 +220,7 @@ fn make_base(prof: &Profile, seed: u64, i: usize, real: Option<&mut dyn Write>) 
         None => rng.chance(2, 3),
     };
     let lay = *rng.pick(&["std", "std", "std", "a16", "a64", "big"]);
-    let lay = if prof.coll == "table" && rng.chance(1, 5) { "zst" } else { lay };
+    let lay = if prof.coll == "table" && prof.name != "xback-table" && rng.chance(1, 5) { "zst" } else { lay };
     // odd element size (5 bytes, align 1): layout padding between data and control bytes
     let odd = prof.coll == "map" && !prof.gen.starts_with("entry") && prof.name != "entry-sat" && prof.drop.is_none() && rng.chance(1, 7);
     let (drop, lay) = if odd { (false, "odd5") } else { (drop, lay) };
@@ -248,6 +249,11 @@ fn make_base(prof: &Profile, seed: u64, i: usize, real: Option<&mut dyn Write>) 
     // in-place rehash of a HashTable has to judge elements whose ideal group is several probe steps away
     let (kind, universe) = if prof.gen == "table-churn" && rng.chance(1, 2) {
         (*rng.pick(&["cluster", "samepos", "groupstride", "postag", "sequential"]), 512)
+    } else {
+        (kind, universe)
+    };
+    let (kind, universe) = if prof.name == "xback-table" {
+        (*rng.pick(&["const0", "const0", "samepos", "sametag", "cluster", "groupstride", "sequential", "mixed"]), *rng.pick(&[24u64, 40, 64, 200]))
     } else {
         (kind, universe)
     };
